@@ -122,9 +122,41 @@ class Handle:
         self.fs.trace.append(("close", self.name))
 
 
+def _find_pool(obj, depth=0, seen=None):
+    """contract of real picklers: process-pool objects cannot be pickled."""
+    seen = seen if seen is not None else set()
+    if id(obj) in seen or depth > 5:
+        return None
+    seen.add(id(obj))
+    cname = type(obj).__name__
+    if cname in ("PoolDouble", "ExecutorDouble", "Pool") or getattr(obj, "_is_pool_double", False):
+        return obj
+    d = getattr(obj, "__dict__", None)
+    items = list(d.values()) if isinstance(d, dict) else []
+    if isinstance(obj, dict):
+        items += list(obj.values())
+    if isinstance(obj, (list, tuple)):
+        items += list(obj)
+    if getattr(obj, "__self__", None) is not None:  # bound method (e.g. a cached pool.map)
+        items.append(obj.__self__)
+    for v in items:
+        if isinstance(v, (int, float, str, bytes, bool, type(None), np.ndarray)):
+            continue
+        r = _find_pool(v, depth + 1, seen)
+        if r is not None:
+            return r
+    return None
+
+
+def _dumps(obj, *a, **k):
+    if _find_pool(obj) is not None:
+        raise NotImplementedError("pool objects cannot be passed between processes or pickled")
+    return b"<pickled sampler core>"
+
+
 def fake_dill():
     mod = types.ModuleType("dill")
-    mod.dumps = lambda obj, *a, **k: b"<pickled sampler core>"
+    mod.dumps = _dumps
     mod.loads = lambda b, *a, **k: None
 
     def dump(obj=None, file=None, *a, **k):
@@ -580,6 +612,21 @@ def make_configs():
         blobs = bool(boolean(ctx, "blobs"))
         A, it, calls = sym_filled_sampler(ctx, 1, blobs, pool=pool)
         path = Path(tempfile.gettempdir()) / "vf_c08" / "ps_cfg.state"
+        used = bool(boolean(ctx, "likelihood_used_before_save"))
+        if used and kind == 1:
+            # a likelihood batch through the integer pool (the process pool is a double); checkpoints are written mid-run
+            from vf.props.c13 import fake_multiprocess
+            saved_mp = sys.modules.get("multiprocess")
+            sys.modules["multiprocess"] = fake_multiprocess(ctx, [])
+            try:
+                A._core._log_like(np.zeros((2, 1)))
+            except AttributeError:
+                pass
+            finally:
+                if saved_mp is not None:
+                    sys.modules["multiprocess"] = saved_mp
+                else:
+                    sys.modules.pop("multiprocess", None)
         try:
             with io_doubles(fs):
                 A.save_state(path)
@@ -595,15 +642,24 @@ def make_configs():
         d = tempfile.mkdtemp(prefix="vf_c08p_")
         try:
             pool = None if kind == 0 else (int(m.get("pool_size", 1)) if kind == 1 else types.SimpleNamespace(map=map))
-            A = Sampler(lambda u: u, lambda x: -float(np.sum(x ** 2)), n_dim=1, n_particles=4, clustering=False, pool=pool, output_dir=d,
+            A = Sampler(lambda u: u, _ll, n_dim=1, n_particles=4, clustering=False, pool=pool, output_dir=d,
                         blobs_dtype=None)
             err = None
             try:
+                if bool(m.get("likelihood_used_before_save", False)) and kind == 1:
+                    A._core._log_like(np.zeros((2, 1)))  # real worker processes
                 A.save_state(os.path.join(d, "x.state"))
             except Exception as e:
                 err = e
-            return {"reproduced": err is not None, "signature": f"save:pool-kind-{kind}", "payload": {"pool": repr(pool)},
-                    "what": f"Sampler(pool={pool!r}).save_state(...) raised {type(err).__name__}: {err}"}
+            for p_ in [getattr(A._core, n_) for n_ in dir(A._core) if "pool" in n_.lower() and n_ != "config"]:
+                try:
+                    p_.terminate()
+                except Exception:
+                    pass
+            return {"reproduced": err is not None, "signature": f"save:pool-kind-{kind}" + (":after-likelihood-call" if m.get("likelihood_used_before_save") else ""),
+                    "payload": {"pool": repr(pool), "likelihood_used_before_save": bool(m.get("likelihood_used_before_save", False))},
+                    "what": f"Sampler(pool={pool!r}).save_state(...)" + (" after one likelihood batch" if m.get("likelihood_used_before_save") else "")
+                            + f" raised {type(err).__name__}: {err}"}
         finally:
             import shutil
             shutil.rmtree(d, ignore_errors=True)
@@ -612,8 +668,79 @@ def make_configs():
                       bounds="pool in {None, symbolic int in [1,4], pool object} x blobs on/off", theory="QF_LIA")
 
 
+def make_resume_target():
+    """run(n_total=N2, resume_state_path=...) must pursue the target of *this* call (same postconditions as an uninterrupted run)."""
+
+    def harness(ctx: PathCtx):
+        fs = FakeFS()
+        A, it, calls = sym_filled_sampler(ctx, 1, False)
+        n1 = integer(ctx, "n_total_of_the_checkpointed_run", lo=1, hi=4)
+        n2 = integer(ctx, "n_total_requested_on_resume", lo=1, hi=4)
+        A._core.n_total = n1
+        path = Path(tempfile.gettempdir()) / "vf_c08" / "ps_4.state"
+        with io_doubles(fs):
+            A.save_state(path)
+            B = Sampler(_pt, _ll, n_dim=1, n_particles=2, clustering=False, random_state=7)
+            B._core._not_termination = lambda: False  # loop head reached: stop there
+            import tempest.tools as tools_mod
+
+            class PB:
+                def __init__(self, *a, **k):
+                    self.info = {}
+
+                def update_stats(self, info):
+                    pass
+
+                def update_iter(self):
+                    pass
+
+                def close(self):
+                    pass
+            B.state.compute_logw_and_logz = lambda *a, **k: (np.zeros(1), 0.0)  # the evidence tail is C12's subject
+            rs = np.random.get_state()
+            try:
+                with patched(tools_mod, ProgressBar=PB):
+                    B._core.run_sampling(n_total=n2, progress=False, resume_state_path=path)
+            finally:
+                np.random.set_state(rs)
+        got = B._core.n_total
+        ctx.check("resumed-run-pursues-the-requested-n_total", (SymInt.lift(got) == n2).z if not isinstance(got, SymInt) else (got == n2).z,
+                  detail=str(got))
+        return None
+
+    def replay(m, label, v):
+        n1 = int(m["n_total_of_the_checkpointed_run"])
+        n2 = int(m["n_total_requested_on_resume"])
+        d = tempfile.mkdtemp(prefix="vf_c08r_")
+        try:
+            s0 = np.random.get_state()
+            np.random.seed(3)
+            A = Sampler(lambda u: u, lambda x: -0.5 * np.sum(((x - 0.5) / 0.2) ** 2, axis=1), n_dim=1, n_particles=8, vectorize=True,
+                        clustering=False, output_dir=d)
+            A._core._initialize_fresh()
+            A.sample()
+            A._core.n_total = n1
+            path = os.path.join(d, "ck.state")
+            A.save_state(path)
+            B = Sampler(lambda u: u, lambda x: -0.5 * np.sum(((x - 0.5) / 0.2) ** 2, axis=1), n_dim=1, n_particles=8, vectorize=True,
+                        clustering=False, output_dir=d)
+            B._core._not_termination = lambda: False
+            B.run(n_total=n2, progress=False, resume_state_path=path)
+            np.random.set_state(s0)
+            got = B._core.n_total
+            return {"reproduced": got != n2, "signature": "resume:n_total-of-the-call-ignored", "payload": {"checkpoint_n_total": n1, "requested": n2, "used": got},
+                    "what": f"run(n_total={n2}, resume_state_path=<checkpoint of a run with n_total={n1}>) uses n_total={got} in its termination test"}
+        finally:
+            import shutil
+            shutil.rmtree(d, ignore_errors=True)
+
+    return Obligation("resume-target", harness, replay=replay, encodes=[core_mod.SamplerCore.run_sampling, core_mod.SamplerCore.load_sampler_state],
+                      bounds="symbolic n_total in [1,4] of the checkpointed run and of the resuming call (int() resolves it by forking); loop skipped at its head", theory="QF_LIA",
+                      stubs=["dill / file system doubles", "_not_termination -> False (stop at the loop head)", "ProgressBar -> no-op"])
+
+
 def obligations(tier):
-    obs = [make_restore(2, False), make_restore(1, True), make_crash(False), make_crash(True), make_configs()]
+    obs = [make_restore(2, False), make_restore(1, True), make_crash(False), make_crash(True), make_configs(), make_resume_target()]
     if tier == "thorough":
         obs += [make_restore(3, True), make_restore(3, False)]
     return obs
